@@ -148,8 +148,9 @@ claim("C21",
       "atoms, AtomCell packing, bytewise order. z3: every entry of the generated atom! table "
       "carries the index the inline rule gives and indices are distinct; the run-time guard of "
       "AtomTable::build_with sends exactly the texts with 1 <= len <= 6 and no NUL to "
-      "Atom::new_inlined; Atom::cmp = str::cmp on the texts.",
-      "interned (dynamic) atoms - IndexSet, RCU, locks, table growth - are outside.",
+      "Atom::new_inlined; Atom::cmp = str::cmp on the texts; the interned set survives table growth "
+      "(a clone is installed) and insertion (clone + the new atom).",
+      "interned (dynamic) atoms beyond that data flow - IndexSet lookups, the RCU / lock protocol - are outside.",
       K + " + finite z3 table check", "DESIGN.md §4 C21", engine="kani+z3")
 claim("C23",
       "M: arg/3 and functor/3. Every path of MachineState::try_arg: on a structure Arg is unified exactly when "
